@@ -1,6 +1,7 @@
 import ColaVerif.DriverLib
 import ColaVerif.Model.LogDet
 import ColaVerif.Model.KrylovExact
+import ColaVerif.Model.LogDetSing
 
 /-!
 Line-protocol driver of C07 (slogdet / logdet).  One JSON case per line:
@@ -284,9 +285,19 @@ def handle (j : Json) : E String := do
     if (la == .lanczos || la == .arnoldi) && A.rows == A.cols && A.wf then
       ((baseLeaves A).filter (fun L => L.rows == L.cols && L.rows ≤ 16)).map krylovLeafJson
     else []
+  -- round 5 (viii): the IEEE outcome instance of the SAME rule recursion (`Model/LogDetSing.lean`): fin | sing = (nan, -inf) | junk
+  let ieee := match slogdetG ieeeOps kernels la ta A with
+    | .ok o => "{\"ok\":\"" ++ o.toString ++ "\"}"
+    | .error e => "{\"err\":\"" ++ e ++ "\"}"
+  -- round 5 (i): the hypotheses of `C07_lanczos_kernel_value` / `C07_lanczos_kernel_answers` (other than tol = 0, cap >= n, which are
+  -- options of the call), decided exactly on the case: square, 1 <= n, `den A` Hermitian, `det (den A) != 0`
+  let Dn := (forceV n n A.den.f).f
+  let tieHerm := A.rows == A.cols && ((List.range n).all fun i => (List.range n).all fun j => Dn i j == star (Dn j i))
+  let tieNonsing := A.rows == A.cols && !gIsZero (detGE n Dn)
+  let tie := "{" ++ s!"\"square\":{A.rows == A.cols},\"n\":{n},\"herm\":{tieHerm},\"nonsing\":{tieNonsing}" ++ "}"
   let pre := (if A.triTrue then [] else ["tri-not-triangular"]) ++
     (if A.sqMembers then [] else ["nonsquare-member"]) ++
     (if A.dupSlice then ["sliced-repeated-index"] else [])
-  pure ("{" ++ s!"\"id\":{id.compress},\"rows\":{A.rows},\"cols\":{A.cols},\"dtype\":\"{A.dtype.toString}\",\"wf\":{A.wf},\"psd\":{A.isa .psd},\"pre\":{showStrs pre},\"base\":{showStrs (baseKinds A)},\"code\":{code},\"code_lenient\":{lenient},\"spec\":{spec},\"krylov_leaves\":[{",".intercalate kleaves}]" ++ "}")
+  pure ("{" ++ s!"\"id\":{id.compress},\"rows\":{A.rows},\"cols\":{A.cols},\"dtype\":\"{A.dtype.toString}\",\"wf\":{A.wf},\"psd\":{A.isa .psd},\"pre\":{showStrs pre},\"base\":{showStrs (baseKinds A)},\"code\":{code},\"code_lenient\":{lenient},\"spec\":{spec},\"krylov_leaves\":[{",".intercalate kleaves}],\"ieee\":{ieee},\"structural\":{A.structuralOnly},\"tie\":{tie}" ++ "}")
 
 def main : IO Unit := driverMain handle
